@@ -114,6 +114,10 @@ class Model:
         self.pin = pins
         return self.pin
 
+    def _to_pin(self, pin: Union[str, Pin]) -> Pin:
+        """Resolve a pin given by name or as Pin object"""
+        return pin if isinstance(pin, Pin) else self.pin[pin]
+
     def is_empty(self) -> bool:
         """Checks if model is empy
 
@@ -218,8 +222,8 @@ class Model:
             np.abs(
                 self.S[
                     0,
-                    self.pin_dic[self.pin[pin1]],
-                    self.pin_dic[self.pin[pin2]],
+                    self.pin_dic[self._to_pin(pin1)],
+                    self.pin_dic[self._to_pin(pin2)],
                 ]
             )
             ** 2.0
@@ -242,7 +246,7 @@ class Model:
                 f"{self}:Using get_PH on a sweep solve. Consider using get_data"
             )
         return np.angle(
-            self.S[0, self.pin_dic[self.pin[pin1]], self.pin_dic[self.pin[pin2]]]
+            self.S[0, self.pin_dic[self._to_pin(pin1)], self.pin_dic[self._to_pin(pin2)]]
         )
 
     def get_A(self, pin1: str, pin2: str) -> complex:
@@ -259,7 +263,7 @@ class Model:
             logger.warning(
                 f"{self}:Using get_A on a sweep solve. Consider using get_data"
             )
-        return self.S[0, self.pin_dic[self.pin[pin1]], self.pin_dic[self.pin[pin2]]]
+        return self.S[0, self.pin_dic[self._to_pin(pin1)], self.pin_dic[self._to_pin(pin2)]]
 
     def expand_mode(self, mode_list: List[str]):
         """This function expands the model by adding additional modes.
@@ -309,7 +313,7 @@ class Model:
                 f"{self}:Using get_output on a sweep solve. Consider using get_full_output"
             )
         input_pin_dic: dict[Pin, float | complex] = {
-            self.pin[name]: value for name, value in input_dic.items()
+            self._to_pin(name): value for name, value in input_dic.items()
         }
 
         l1 = list(self.pin_dic.keys())
@@ -542,7 +546,7 @@ class SolvedModel(Model):
                 else:
                     raise Exception("Not able to convert to pandas")
 
-        i1, i2 = self.pin_dic[self.pin[pin1]], self.pin_dic[self.pin[pin2]]
+        i1, i2 = self.pin_dic[self._to_pin(pin1)], self.pin_dic[self._to_pin(pin2)]
         params["T"] = np.abs(self.S[:, i1, i2]) ** 2.0
         params["dB"] = 20.0 * np.log10(np.abs(self.S[:, i1, i2]))
         params["Phase"] = np.angle(self.S[:, i1, i2])
@@ -567,7 +571,7 @@ class SolvedModel(Model):
         """
 
         input_pin_dic: dict[Pin, float | complex] = {
-            self.pin[name]: value for name, value in input_dic.items()
+            self._to_pin(name): value for name, value in input_dic.items()
         }
 
         params = {}
@@ -744,7 +748,7 @@ class SolvedModel(Model):
                 parameter given to solve plus two columns for monitor port.
         """
         input_pin_dic: dict[Pin, float | complex] = {
-            self.pin[name]: value for name, value in input_dic.items()
+            self._to_pin(name): value for name, value in input_dic.items()
         }
 
         params = {}
